@@ -47,6 +47,16 @@ FS = [None, [], [[0]], [[0], [1]], [[0, 1]]]
 MODES = ('obj', 'text')
 
 
+class Obj(object):
+    """A state that hashes and compares by identity; its repr does not show the address."""
+
+    def __init__(self, i):
+        self.i = i
+
+    def __repr__(self):
+        return 'Obj<%d>' % self.i
+
+
 def make_structures():
     return [Kripke(S=[0, 1], R=[(0, 1), (1, 1), (1, 0)], L={0: {'p'}, 1: {'q'}}),
             Kripke(S=[0, 1, 2], S0=[2], R=[(0, 1), (1, 0), (0, 0), (1, 1), (2, 0), (2, 2)],
@@ -55,13 +65,30 @@ def make_structures():
             # two separate 2-state components with self-loops everywhere: [{0,1}] is met by both,
             # [{0},{1}] by none - fairness lists with equal unions but different fair states
             Kripke(S=[0, 1, 2, 3], R=[(0, 2), (2, 0), (0, 0), (2, 2), (1, 3), (3, 1), (1, 1), (3, 3), (0, 1)],
-                   L={0: {'p'}, 1: {'q'}, 2: {'p', 'q'}, 3: set()})]
+                   L={0: {'p'}, 1: {'q'}, 2: {'p', 'q'}, 3: set()}),
+            _obj_structure()]
+
+
+def _obj_structure():
+    a, b, c = Obj(0), Obj(1), Obj(2)
+    return Kripke(S=[a, b, c], R=[(a, b), (b, a), (a, a), (b, b), (c, a), (c, c)],
+                  L={a: {'p'}, b: {'q'}, c: {'p', 'q'}})
+
+
+def _unused():
+    return [None]
 
 
 def alphabet():
     ops = []
     for c in ('CTL', 'LTL', 'CTLS'):
-        for ki in range(4):
+        for ki in range(5):
+            if ki == 4:
+                # identity-hashed states: object formulas only, with and without fairness
+                for fi in (0, 2):
+                    ops.append((c, ki, fi, 'obj', 0))
+                ops.append((c, ki, 3, 'obj', 1))
+                continue
             for fi in range(4):
                 for mode in MODES:
                     ops.append((c, ki, fi, mode, 0))
@@ -122,7 +149,12 @@ class Pool(object):
             arg = self.texts[c][fi]
             if mode == 'text':
                 kw['parser'] = self.parsers[c]
-        return as_state_set(call(C.modelcheck, self.K[ki], arg, **kw))
+        r = call(C.modelcheck, self.K[ki], arg, **kw)
+        if r[0] == 'ok' and isinstance(r[1], set):
+            own = list(self.K[ki].states())
+            if not all(any(x is s for s in own) for x in r[1]):
+                return ('exc', 'ForeignStateObjects', 'the result holds objects that are not states of K')
+        return as_state_set(r)
 
 
 def baselines():
@@ -168,7 +200,7 @@ def _baseline_main():
 def scope(tier, seed):
     n = len(alphabet())
     return {'operations': n, 'depth 2': 'all %d ordered pairs' % (n * n),
-            'depth 3': 'all triples of a %d-operation sub-alphabet' % (12 if tier == 'quick' else 26),
+            'depth 3': 'all triples of a %d-operation sub-alphabet' % len(sub_alphabet(12 if tier == 'quick' else 26)),
             'pool': '3 structures (2-state with self-loop; 3-state with two SCCs whose labels contain '
                     '"fair" and "[A(G(p))]" and a non-empty library fair set; 1-state), 4 formulas per '
                     'checker (CTL-native, LTL fallback, E-rewrite, nested quantifier), F in '
@@ -181,7 +213,7 @@ def plan(tier, seed):
     sh = []
     for lo, hi in chunks(n, 3):
         sh.append(['pairs', lo, hi, base])
-    m = 12 if tier == 'quick' else 26
+    m = len(sub_alphabet(12 if tier == 'quick' else 26))
     for i in range(m):
         sh.append(['triples', i, m, base])
     return sh
